@@ -23,7 +23,7 @@ PROPERTY_PARTS = {
     "C15": ["deque.c15", "deque.c16"],
     "C16": ["deque.c16"],
     "C01": ["codec.small", "codec.prod"],
-    "C02": ["codec.small", "codec.prod"],
+    "C02": ["codec.small", "codec.prod", "codec.footprint"],
     "C07": ["codec.small", "codec.prod"],
     "C09": ["codec.small", "codec.prod", "codec.footprint"],
     "C08": ["stream.main"],
